@@ -39,10 +39,12 @@ def table0():
 
 
 def table12():
-    rows = ["| change | breaks | needs | detected by |", "|--------|--------|-------|-------------|"]
+    rows = ["| change | breaks | needs | detected by | last full run: exit code(s); VIOLATION lines from obligations / from stand-ins |", "|--------|--------|-------|-------------|------|"]
     for d in sorted(glob.glob(os.path.join(ROOT, "seeded", "*", "meta.json"))):
         m = json.load(open(d))
-        rows.append(f"| {m['id']} | {m['breaks_property']} | {m['needs_to_manifest']} | {m['detected_by']} |")
+        lr = m.get("last_run")
+        last = f"{lr['exit_codes']}; {lr['violation_lines_from_obligations']} / {lr['violation_lines_from_bounded_stand_ins']}" if lr else "—"
+        rows.append(f"| {m['id']} | {m['breaks_property']} | {m['needs_to_manifest']} | {m['detected_by']} | {last} |")
     return "\n".join(rows)
 
 
